@@ -30,6 +30,7 @@ var inPlaceExceptions = map[string]string{
 
 func runC06(c *Ctx, r *Report) {
 	r.Rule("C06.R1", "no in-place write (element store, append into spare capacity, copy into, slices.Insert/Delete/Grow, sort, or a call to a function summarised as mutating its receiver/argument) targets container storage that may be visible through another binding; storage is exclusively owned only when allocated in the function or handed in by every caller as such")
+	r.Rule("C06.R3", "x + y builds a new container: no result of evalArrayInfixExpression / evalMapInfixExpression may hold storage derived from an operand (ownership roots propagated through Elements, append, slicing, NewArray, the Append methods)")
 	r.Rule("C06.R2", "small/large sibling agreement: every type switch over array or map representations has arms for both representations (or the interface)")
 	f := c.containerFresh()
 	finds, examined := f.Findings()
@@ -75,6 +76,30 @@ func runC06(c *Ctx, r *Report) {
 		r.Undecided("C06.R1: only %d mutator summaries derived (expected (*BigMap).Set, (*BigMap).Delete, ...)", nm)
 	}
 	r.Floor("C06.R1", 12)
+	// R3: x + y builds a new container
+	objT := c.TypeNamed("object", "Object")
+	for _, name := range []string{"State.evalArrayInfixExpression", "State.evalMapInfixExpression"} {
+		fn := c.SSAFn(c.Fn("eval", name))
+		rets := f.retRoots(fn)
+		if len(rets) != 1 {
+			r.Undecided("C06.R3: %s does not have a single result", name)
+			continue
+		}
+		n := 0
+		for _, p := range fn.Params {
+			if !types.Identical(p.Type(), objT) {
+				continue
+			}
+			n++
+			r.Check(!rets[0].params[p], "C06.R3", ssaFuncName(fn), "result does not carry the storage of operand "+p.Name(), c.Pos(fn.Pos()),
+				"a result of the operator may be (or share the element storage of) operand "+p.Name()+
+					": the new value and the operand are then one container, and an in-place update through either binding shows through the other")
+		}
+		if n != 2 {
+			r.Undecided("C06.R3: %s: expected two Object operands, found %d", name, n)
+		}
+	}
+	r.Floor("C06.R3", 4)
 	c.checkSiblingSwitches(r, "C06.R2", "array")
 	c.checkSiblingSwitches(r, "C06.R2", "map")
 	r.Floor("C06.R2", 6)
